@@ -128,3 +128,29 @@ Theorem C07_kernel_level_is_cm_zero :
   forall m, 0 <= PSW m -> is_kernel m = negb (Z.testbit (PSW m) 11) && negb (Z.testbit (PSW m) 12).
 Proof. exact is_kernel_spec. Qed.
 Print Assumptions C07_kernel_level_is_cm_zero.
+
+(* the same for a handler control block WITH the I flag (initial context: PCBP moves 12 bytes on, I is cleared in
+   the handler's PSW): delivery + RETPS is transparent to the interrupted program *)
+From Dmd Require Import Proofs.InterruptProofsI.
+Theorem C07_interrupt_retps_transparent_I_block :
+  forall ir v m,
+    iopcode ir = 12488 ->
+    bus_wf (mbus m) -> 0 <= v -> in_rom_w (140 + 4 * v) ->
+    let N := romw m (140 + 4 * v) in
+    let P := R m R_PCBP in
+    let S := R m R_ISP in
+    in_ram_w N -> in_ram_w (N + 4) -> in_ram_w (N + 8) ->
+    in_ram_w P -> in_ram_w (P + 4) -> in_ram_w (P + 8) -> in_ram_w S -> S + 4 < 4294967296 ->
+    (P + 12 <= N \/ N + 12 <= P) -> (S + 4 <= P \/ P + 12 <= S) -> (S + 4 <= N \/ N + 12 <= S) ->
+    let H := ldw m N in
+    0 <= H -> Z.testbit H 8 = false -> Z.testbit H 7 = true -> Z.testbit H 11 = false -> Z.testbit H 12 = false ->
+    Z.testbit (PSW m) 7 = false ->
+    0 <= R m R_PC < 4294967296 -> 0 <= R m R_SP < 4294967296 ->
+    exists m1 m2,
+      on_interrupt v m = Ok tt m1 /\ R m1 R_PCBP = N + 12 /\ exec ir m1 = Ok 0 m2
+      /\ R m2 R_PC = R m R_PC /\ R m2 R_SP = R m R_SP /\ R m2 R_PCBP = P /\ R m2 R_ISP = S
+      /\ (forall i, 0 <= i <= 10 -> R m2 i = R m i)
+      /\ (forall k, In k [21; 20; 19; 18; 16; 15; 14; 13; 12; 11; 10; 9; 7] -> Z.testbit (PSW m2) k = Z.testbit (PSW m) k)
+      /\ (forall a, RAMB <= a -> (a < S \/ S + 4 <= a) -> (a < P \/ P + 12 <= a) -> ramb m2 a = ramb m a).
+Proof. exact interrupt_retps_transparent_I. Qed.
+Print Assumptions C07_interrupt_retps_transparent_I_block.
